@@ -118,13 +118,13 @@ REGISTRY = {
         "rule": "part a: A1 = every step sequence up to length 10 (quick) / 13 (thorough) over {merge(unique id appended), retract/no-op modify, drop sender, start recv, poll, cancel, drop receiver} followed by a drain that polls only when woken; A2 = the same steps where each of the four in-code pause points is also a scheduling point (the other party's steps run re-entrantly there), up to length 8 / 10; "
                 "part b: producer/consumer OS threads with seeded merges, retracts, bursts before drop, cancel experiments, early receiver drop and seeded delays at the pause points; distinct = distinct schedule (a) / (plan, pause-point interleaving signature) (b); non-trivial = at least one merge and one poll",
         "assumptions": COMMON_ASSUME + ["part b samples thread interleavings (distinct pause-point signatures are counted); a consumer still parked 30 s after the producer finished is a hang only if its waker was never woken and no event was logged in the second half of the wait"],
-        "quick": [{"variant": "dbg"}],
-        "thorough": [{"variant": "dbg", "timeout_t": 5400},
+        "quick": [{"variant": "dbg"}, {"variant": "dbg", "part": "c"}],
+        "thorough": [{"variant": "dbg", "timeout_t": 5400}, {"variant": "dbg", "part": "c"},
                      {"variant": "tsan", "part": "b", "scale": 0.1, "optional": True},
                      {"variant": "miri", "part": "a", "optional": True, "timeout_t": 3000},
                      {"variant": "miri", "part": "b", "optional": True, "miri_seeds": 16, "timeout_t": 3000}],
         "level_text": "Every schedule of the bounded space is executed against the real channel and judged after every step: received vectors reconstruct exactly what was merged (each id once, in order), a Pending poll while a value is pending or the sender is gone must have been followed by a wake (lost wake-up stated logically), None only after the last value, modify fails iff the receiver is gone. Exhaustive for the stated bounds (sequentially consistent interleavings at the pause points); threads, TSan and Miri add sampled weak-memory and preemption coverage.",
-        "level_note": "trusted: the inline model in checks/c19.rs; the merge_channel re-export hook and the four pause points (outside all locks); Part C (user-visible refresh through a session) is covered by the mock-cluster check part c",
+        "level_note": "trusted: the inline model in checks/c19.rs; the merge_channel re-export hook and the four pause points (outside all locks); part c (user-visible): against the mock cluster, a requested refresh_metadata() must return and the published cluster state must name exactly the latest peers after bursts of topology changes with and without events",
         "design_ref": "DESIGN.md §4 C19",
     },
     "C06": {
@@ -209,8 +209,8 @@ REGISTRY = {
         "rule": "cases = request descriptions (QUERY, EXECUTE incl. result-metadata id, BATCH, PREPARE, STARTUP, REGISTER, OPTIONS, AUTH_RESPONSE) framed uncompressed / LZ4 / Snappy with and without tracing; all 64 subsets of optional fields x 4 entry points enumerated, "
                 "boundary cases at the 16/32-bit limits (65535/65536 values, ids, statements, strings), random cases beyond; non-trivial = every case but OPTIONS; distinct = distinct (kind, spec body)",
         "assumptions": COMMON_ASSUME,
-        "quick": [{"variant": "dbg", "part": "a"}],
-        "thorough": [{"variant": "dbg", "part": "a", "timeout_t": 5400}, {"variant": "rel", "part": "a", "args": {"big": "0"}}],
+        "quick": [{"variant": "dbg", "part": "a"}, {"variant": "dbg", "part": "b"}],
+        "thorough": [{"variant": "dbg", "part": "a", "timeout_t": 5400}, {"variant": "rel", "part": "a", "args": {"big": "0"}}, {"variant": "dbg", "part": "b"}],
         "level_text": "Each frame built through the public request API is parsed by an independent CQL v4 codec and must equal the request description (header, flags, length, every body field, values in order) and the spec encoding byte for byte; compressed bodies must decompress to the uncompressed serialization; unrepresentable inputs must be refused. Thorough adds the >4 GiB and 2 GiB-statement cases in child processes.",
         "level_note": "trusted: harness/src/wire (spec codec, self-tested), lz4_flex/snap for the compression primitive; oversize cases are skipped as inconclusive when memory is short",
         "design_ref": "DESIGN.md §4 C09",
